@@ -57,6 +57,8 @@ DESC = {
  "boundary-counts": "a blocking Pull / a stream whose message count is 0, negative, a multiple of 65536 or an i32 limit on a subscription that HAS messages: answered at once",
  "topicstress": "OS threads released from a spinning start line create topics at the same instant; one Publish per topic: ids pairwise distinct, each subscription gets its own (search only)",
  "deletestress": "closed-loop publishers on one topic and a DeleteSubscription in their midst (deterministic scheduling): Publish calls completed before the deletion returns are bounded (search only)",
+ "datastress": "multi-thread runtime, shorter than an ack deadline: publishers and consumers (ack / nack / extend, random batch sizes) on two subscriptions with a global logical clock: nothing lost, ack ids unique, re-delivery only after a nack, none after an ack, payloads intact (search only)",
+ "grpcstress": "multi-thread runtime, real gRPC handlers: streams and blocked Pulls on a subscription that two DeleteSubscription calls delete at once, Get/Ack racing: all answered, streams end NOT_FOUND, exactly one delete OK (search only)",
  "nsstress": "multi-thread runtime: concurrent create / delete / get / list of topics and subscriptions over small name pools; no call left unanswered; per name creates - deletes in {0,1} = presence; listings = what exists; final Publish reaches every survivor with fresh ids (search only)",
  "woken-dropped": "XH/XP: the unary handler woken, then polled k times with the mailbox pre-filled and dropped",
 }
